@@ -1019,6 +1019,10 @@ class Address(ABC):
         network_prefix = data_checksum[:1]
         checksum = data_checksum[-4:]
 
+        # version byte plus 20-byte hash plus 4-byte checksum
+        if len(data_checksum) != 25:
+            return False
+
         # check correct network (depending on address type)
         if self.get_type() == P2PKH_ADDRESS:
             if network_prefix != NETWORK_P2PKH_PREFIXES[get_network()]:
